@@ -145,6 +145,19 @@ CLAIMED = {
        'against a loopback HTTP peer and MxSmtpRelay with a stub resolver.',
   ref='6/C11', technique='Lean 4 proof (case analysis of the attempt function over downstream scripts, induction on the LMTP merge) + differential correspondence vs real relay clients on scripted peers',
   note='Partial: resolver, connection reuse and real timeouts are covered by the correspondence campaign, not by theorems.'),
+ 'C19': dict(
+  text='PARTIAL (liveness is proved as deadlock-freedom: with a request waiting some pool step is always enabled; fair termination is not a theorem; '
+       'RSET-after-failure and one-message-at-a-time on a reused connection are monitored on the implementation, not proved). Lean theorems over '
+       'Model/Pool.lean: BlockingDeque keeps semaphore = length under every sequence of its 8 operations, a pop never finds the deque empty behind '
+       'the semaphore and blocks exactly when it is empty; the pool transition system (labels: attempt, poll, wake, idle expiry, finish, fail, '
+       're-queue, connection drop, link callback; SMTP-style exiting clients and HTTP-style persistent clients) keeps for every interleaving: '
+       'clients <= pool_size; every attempted request is in exactly one place (queue once / held by exactly one client / answered once), nothing '
+       'unattempted is anywhere; a waiting request always has a client in the pool and an enabled pool step (no stranding); a busy client can '
+       'always complete. Tied to the code by replaying, label by label, the traces of the real RelayPool + SmtpRelayClient (scripted gated SMTP '
+       'peers on socketpairs) and HttpRelay + HttpRelayClient (gated loopback HTTP peer) through the model: every observed label must be '
+       'enabled and the idle flags, queue and answered set must agree at every observation point; BlockingDeque by random operation sequences.',
+  ref='6/C19', technique='Lean 4 proof (inductive invariant of the pool transition system over all interleavings; BlockingDeque invariant) + trace-replay correspondence vs real RelayPool/SmtpRelayClient/HttpRelayClient',
+  note='Partial: termination under fairness is not proved; per-connection protocol discipline is monitored, not proved.'),
 }
 def main():
     props = [json.loads(l) for l in open(os.path.join(V, 'properties.jsonl'))]
